@@ -21,6 +21,11 @@ def include_case(sc):
         lines = [f'#include "{n}.asm"' + ('  ; don\'t "move" this\n' if (j + len(node)) % 2 else '\n') for j, n in enumerate(sc['incs'][node])]
         if node == 'main' and sc.get('skipmain') and lines:
             lines[-1] = '#ifdef SYMBOL_THAT_IS_NOT_DEFINED\n' + lines[-1] + '#endif\n'
+        if sc.get('backedge'):
+            if node == 'main' and lines:       # an include guard around the main file's includes
+                lines = ['#ifndef MAIN_INCLUDES_DONE\n', '#define MAIN_INCLUDES_DONE\n'] + lines + ['#endif\n']
+            if node == 'A':
+                lines = lines + ['#include "main.asm"\n']
         return f'.byte {MARK[node]}\n' + ''.join(lines)
     files['d0/main.asm'] = text('main')
     for f, dirs in sc['place'].items():
@@ -54,14 +59,17 @@ def eval_include_cli(sc):
     """The same configuration through the command line, typed from inside the project directory with relative paths, and with the
     main file's own directory also named by -I (it is searched anyway, so naming it changes nothing)."""
     case = dict(include_case(sc), relative_paths=True)
-    case['include_dirs'] = list(case['include_dirs']) + ['d0']
+    if len(str(sc)) % 2:
+        case['include_dirs'] = list(case['include_dirs']) + ['d0']
+    else:
+        case['cli_cwd'] = 'd0'         # typed inside the main file's own directory: the main file is a bare name
     obs = runner.run_cli(case)
     exp_ok = sc['st'] == 'ok'
     if (obs['status'] == 'ok') != exp_ok:
-        return {'mismatch': f'command line with relative paths and -I d0: specification {sc["st"]}, implementation {obs["status"]} ({(obs.get("msg") or "")[-140:]})', 'case': case,
+        return {'mismatch': f'command line with relative paths (from the project directory with -I d0, or from inside d0 with a bare file name): specification {sc["st"]}, implementation {obs["status"]} ({(obs.get("msg") or "")[-140:]})', 'case': case,
                 'obs': obs['status']}
     if exp_ok and obs['image'] != bytes(MARK[n] for n in sc['out']):
-        return {'mismatch': f'command line with relative paths and -I d0: image {obs["image"].hex()}', 'case': case, 'obs': obs['image'].hex()}
+        return {'mismatch': f'command line with relative paths (from the project directory with -I d0, or from inside d0 with a bare file name): image {obs["image"].hex()}', 'case': case, 'obs': obs['image'].hex()}
     return None
 
 
